@@ -387,6 +387,7 @@ class World:
 
     def boot(self):
         REGISTRY.handlers = []
+        self.was_reset = False
         exc, warned, self.fs = self.construct(self.cache)
         if exc is not None:
             return [("restart/exception/" + type(exc).__name__, None,
@@ -485,6 +486,13 @@ class World:
             bad += self.audit(state, self.bytes, self.entries)
         return bad + self.boot(), seams.plan.fired
 
+    def reset(self):
+        """The cache is emptied inside the running process (reset_cache; the
+        time_coverage setter does the same)."""
+        self.fs.reset_cache()
+        self.was_reset = True
+        return []
+
     def add(self):
         present = set(os.listdir(self.data))
         self.touch(next(n for n in self.pool if n not in present))
@@ -514,4 +522,8 @@ class World:
                 tuple(sorted(os.path.basename(k)
                              for k in self.fs.info_cache)),
                 tuple(sorted(os.listdir(self.data))),
-                len(REGISTRY.handlers))
+                len(REGISTRY.handlers),
+                # in-memory history that no listing shows: the cache object
+                # was replaced since this process started (what was handed to
+                # the exit handler at start-up may be another object now)
+                getattr(self, "was_reset", False))
